@@ -3,7 +3,7 @@
 Invalid.tla drives a small universe of real objects through every history of up to MaxSteps edits
 (attribute set to None / restored, element detached by delete_*, column moved to another table,
 inline flag set on a composite reference, table removed from / added to the database).  After
-every edit all 13 queries (.sql/.dbml of elements and of the database, Reference.table1,
+every edit all 15 queries (.sql/.dbml of elements and of the database, Reference.table1,
 get_refs) are evaluated; TLC checks each observed outcome class against Invalid!Out wherever the
 property speaks (exactly one defect, or none: then every query must succeed)."""
 from __future__ import annotations
@@ -15,10 +15,10 @@ from typing import Any, Dict, List
 from . import core, tlc
 
 QUERIES = ['T.sql', 'a.sql', 'E.sql', 'i.sql', 'I.sql', 'R.sql', 'R.dbml', 'R.table1', 'T.get_refs', 'a.get_refs', 'b.get_refs',
-           'db.sql', 'db.dbml']
+           'db.sql', 'db.dbml', 'R2.sql', 'R2.dbml']
 
 
-PLAIN = {'ipk': False, 'iunique': False, 'apk': False, 'rtype': '>'}
+PLAIN = {'ipk': False, 'iunique': False, 'apk': False, 'rtype': '>', 'r2inline': False}
 
 
 class World:
@@ -31,6 +31,8 @@ class World:
         self.a, self.b = Column('a', 'int', pk=fl['apk']), Column('b', 'int')
         self.T.add_column(self.a)
         self.T.add_column(self.b)
+        self.c = Column('c', 'int')
+        self.T.add_column(self.c)
         self.U = Table('u')
         self.x, self.y = Column('x', 'int'), Column('y', 'int')
         self.U.add_column(self.x)
@@ -38,12 +40,14 @@ class World:
         self.V = Table('t', schema='s2')
         self.V.add_column(Column('z', 'int'))
         self.E = Enum('e', [EnumItem('i')])
-        self.I = Index(subjects=[self.a], pk=fl['ipk'], unique=fl['iunique'])
+        self.I = Index(subjects=[self.c], pk=fl['ipk'], unique=fl['iunique'])
         self.T.add_index(self.I)
         for o in (self.T, self.U, self.V, self.E):
             self.D.add(o)
         self.R = Reference(fl['rtype'], [self.a, self.b], [self.x, self.y])
         self.D.add(self.R)
+        self.R2 = Reference('>', [self.a], [self.x], inline=fl['r2inline'])
+        self.D.add(self.R2)
         self.saved = {'tname': 't', 'tschema': 'public', 'aname': 'a', 'atype': 'int', 'ename': 'e', 'eschema': 'public', 'iname': 'i'}
 
     def _attr(self, a):
@@ -90,7 +94,8 @@ class World:
              'i.sql': lambda: self.E.items[0].sql, 'I.sql': lambda: self.I.sql, 'R.sql': lambda: self.R.sql,
              'R.dbml': lambda: self.R.dbml, 'R.table1': lambda: self.R.table1, 'T.get_refs': lambda: self.T.get_refs(),
              'a.get_refs': lambda: self.a.get_refs(), 'b.get_refs': lambda: self.b.get_refs(),
-             'db.sql': lambda: self.D.sql, 'db.dbml': lambda: self.D.dbml}[q]
+             'db.sql': lambda: self.D.sql, 'db.dbml': lambda: self.D.dbml,
+             'R2.sql': lambda: self.R2.sql, 'R2.dbml': lambda: self.R2.dbml}[q]
         try:
             f()
             return 'ok'
@@ -118,9 +123,9 @@ def _exec_chunk(items):
 
 
 def main(argv: List[str]) -> int:
-    rep = core.Report('C17', 'Invalid.tla: all edit histories up to a depth bound over a universe of real objects; outcome class of 13 '
+    rep = core.Report('C17', 'Invalid.tla: all edit histories up to a depth bound over a universe of real objects; outcome class of 15 '
                              'render/query calls after every edit validated by TLC against Invalid!Out')
-    rep.rule = ('case = one edit history (24 edit kinds, all enabled sequences up to the depth bound); after every edit all 13 queries '
+    rep.rule = ('case = one edit history (24 edit kinds, all enabled sequences up to the depth bound); after every edit all 15 queries '
                 'are evaluated; non-trivial = the history reaches a state with exactly one defect')
     rep.assumptions = ['states with several simultaneous defects are observed but not judged (the property does not say which error wins)']
     depth = 3 if core.tier() == 'quick' else 4
@@ -132,7 +137,7 @@ def main(argv: List[str]) -> int:
         raise core.Machinery('MC_Invalid: %d histories for %d states' % (len(hists), res.distinct))
     rep.exhaustive = True
     flavours = [p[1] for p in res.prints if p and p[0] == 'F'][0]
-    if len(flavours) != 24 or PLAIN not in flavours:
+    if len(flavours) != 48 or PLAIN not in flavours:
         raise core.Machinery('MC_Invalid: flavours %r' % (flavours,))
     others = [f for f in flavours if f != PLAIN]
     items = [{'tid': i + 1, 'hist': h, 'fl': PLAIN} for i, h in enumerate(hists)]
@@ -149,8 +154,10 @@ def main(argv: List[str]) -> int:
     cfgt = open(tlc.SPEC_DIR + '/TraceInvalid.cfg').read().replace('MaxSteps = 3', 'MaxSteps = %d' % depth)
     verdicts, st = core.validate('TraceInvalid', 'TraceInvalid.cfg', recs, cfg_text=cfgt)
     rep.add_val_stats('TraceInvalid', st)
+    reached = set()
     for r in recs:
-        v = verdicts[r['tid']]
+        v, singles = verdicts[r['tid']]
+        reached |= set(singles)
         rep.evaluations += 1
         if v == '':
             rep.traces_ok += 1
@@ -158,6 +165,11 @@ def main(argv: List[str]) -> int:
                 rep.mark_nontrivial(r['hist'])
         else:
             rep.violation({'hist': items[r['tid'] - 1]['hist'], 'fl': items[r['tid'] - 1]['fl']}, {'failing_clause': v, 'outcomes': r['steps']})
+    alld = {'tname', 'tschema', 'aname', 'atype', 'ename', 'eschema', 'iname', 'index detached', 'a detached', 'b detached',
+            'mixed side', 'composite inline', 'table detached'}
+    if reached != alld:
+        raise core.Machinery('C17: single defects never reached (hence never judged): %s' % sorted(alld - reached))
+    rep.notes['single_defects_reached_and_judged'] = sorted(reached)
     rep.samples.append({'history': hists[len(hists) // 2], 'outcomes_after': recs[len(recs) // 2]['steps'][-1]})
     return rep.finish()
 
@@ -168,8 +180,8 @@ def replay(path: str) -> int:
     recs = _exec_chunk([{'tid': 1, 'hist': v['stimulus']['hist'], 'fl': v['stimulus'].get('fl')}])
     cfgt = open(tlc.SPEC_DIR + '/TraceInvalid.cfg').read().replace('MaxSteps = 3', 'MaxSteps = 6')
     verdicts, _ = core.validate('TraceInvalid', 'TraceInvalid.cfg', recs, cfg_text=cfgt)
-    print('verdict: %r' % verdicts[1])
-    if verdicts[1]:
+    print('verdict: %r' % (verdicts[1],))
+    if verdicts[1][0]:
         print('VIOLATION property=C17 replay=%s' % path)
         return 1
     return 0
